@@ -819,12 +819,6 @@ func judge(c Case, dir string, b *built, ops []op, err error, sink *sinkRec, pro
 	if b.hasZlib {
 		g = "deflate-zlib-wrapped-message"
 	}
-	if err != nil {
-		// the runner stops feeding a direction whose adapter failed: everything else would be a consequence
-		v.Addf("C11/error/"+g+"/adapter-returned-error", "%s: a well-formed stream made the adapter fail: %v", where, err)
-		return v
-	}
-
 	if ct := ctFor(c, dir); !isGRPC(ct) {
 		// untouched, one for one; nothing is shown to the gRPC processor
 		shape := "any"
@@ -832,6 +826,10 @@ func judge(c Case, dir string, b *built, ops []op, err error, sink *sinkRec, pro
 			shape = "response-of-grpc-request-is-not-grpc"
 		}
 		c.CT = ct
+		if err != nil {
+			v.Addf("C11/non-grpc/"+shape+"/adapter-returned-error", "%s content-type %q: the adapter failed on frames it has no business parsing: %v", where, c.CT, err)
+			return v
+		}
 		// (a non-gRPC response to a gRPC request: whether the RPC's processor may see its header blocks
 		// is not for the statement to say - only the destination is judged there)
 		if len(proc.ev) > 0 && shape == "any" {
@@ -845,6 +843,12 @@ func judge(c Case, dir string, b *built, ops []op, err error, sink *sinkRec, pro
 		if !ok {
 			v.Addf("C11/non-grpc/"+shape+"/frames-altered", "%s content-type %q: %d frames went in, the sink got%s", where, c.CT, len(ops), summary(sink.ev))
 		}
+		return v
+	}
+
+	if err != nil {
+		// the runner stops feeding a direction whose adapter failed: everything else would be a consequence
+		v.Addf("C11/error/"+g+"/adapter-returned-error", "%s: a well-formed stream made the adapter fail: %v", where, err)
 		return v
 	}
 
